@@ -144,6 +144,8 @@ const fn native_chunks_@S@<const K: usize, const C: usize>() -> Out where Const<
         d = h;
         let back: &[[@T@; K]] = GA::<@T@, N<K>>::into_chunks(g);
         assert!(back.len() == C);
+        let flat = GA::<@T@, N<K>>::slice_from_chunks(g);
+        assert!(flat.len() == C * K);
     }
     {
         let g: &mut [GA<@T@, N<K>>] = GA::<@T@, N<K>>::from_chunks_mut(&mut src);
